@@ -251,6 +251,7 @@ pub fn gen_program(r: &mut Rng, g: &Geo, p: &Profile, backend: &str, seed_tag: u
             let is_batch = r.chance(if faulty || crashy { 70 } else { 30 });
             if crashy {
                 if backend == "fd" && is_batch && r.chance(20) { lines.push("crash 7 0".into()); }
+                else if r.chance(35) { lines.push(format!("crash 8 {}", if is_batch { r.below(5) } else { r.below(2) })); }
                 else { lines.push(format!("crash 0 {}", if is_batch { r.below(5) } else { 0 })); }
             }
             if faulty {
